@@ -9,30 +9,26 @@ import QmiModel.Lemmas.C17Rec
 Property theorems only (the proofs live in `Lemmas/C17*.lean`).  Every statement is over *all*
 strings / shapes / attribute maps / file systems / histories / interleavings: no bounds.
 
-The full-strength text round trip
-
-    theorem attr_roundtrip : ∀ (pr : Nat → Bool) (v : AttrVal), parseAttr (pyRepr pr v) = .ok v
-
-is **false** of the faithful model (`attr_roundtrip_false`): it fails exactly on (1) numpy scalars
-— the timestamp and every numeric attribute of a dataset that was read from HDF5 — whose `repr` is
-`np.float64(…)` / `np.int64(…)`, and (2) strings with a non-printable character above U+FFFF, which
-`repr` writes as `\Uhhhhhhhh`, an escape `_parse_attribute_value` does not know.  Both witnesses are
-replayed on the implementation by the harness (known findings).  `attr_roundtrip_partial` proves the
-statement on everything else.
+All defects the check had found on the pinned tree (04de7e7) are repaired in /repo (fix commits 4c93d47,
+1c58093, 37955b4, 4ddf66d, 7d3961f); the models mirror the repaired code, and the text round trip
+`attr_roundtrip` is now proved at full strength (it was false on the pinned tree: numpy scalars reached the
+text writer, and `repr`'s `\Uhhhhhhhh` escape was unknown to the reader).
 -/
 namespace QmiModel.C17
 open AttrL LayoutL Hdf5L StoreL RecL
 
 /-! ## text header values: `_parse_attribute_value (repr v) = v` -/
 
-/-- values outside the two defect classes: strings whose characters are below U+10000 or printable,
-ints, bools, floats (literal in `float.__repr__` form) -/
-def AttrRoundTrips (pr : Nat → Bool) (v : AttrVal) : Prop := AttrOk pr v
+/-- well-formedness of the model's carrier (not an exclusion): a `str` is a list of code points (< 0x110000),
+a `float` is carried as the literal `float.__repr__` produces -/
+def AttrValid (v : AttrVal) : Prop := ValidAttr v
 
-theorem attr_roundtrip_partial (pr : Nat → Bool) (v : AttrVal) (h : AttrRoundTrips pr v) :
-    parseAttr (pyRepr pr v) = .ok v := AttrL.attr_roundtrip_partial pr v h
+/-- every attribute value the writer can emit — any string, any int, any bool, any float — reads back equal,
+for every `isprintable` classification -/
+theorem attr_roundtrip (pr : Nat → Bool) (v : AttrVal) (h : AttrValid v) :
+    parseAttr (pyRepr pr v) = .ok v := AttrL.attr_roundtrip pr v h
 
-theorem attr_roundtrip_str (pr : Nat → Bool) (s : Str) (h : ∀ c ∈ s, c < 65536 ∨ pr c = true) :
+theorem attr_roundtrip_str (pr : Nat → Bool) (s : Str) (h : ∀ c ∈ s, c < 1114112) :
     parseAttr (pyRepr pr (.str s)) = .ok (.str s) := AttrL.str_roundtrip pr s h
 
 theorem attr_roundtrip_int (pr : Nat → Bool) (i : Int) : parseAttr (pyRepr pr (.int i)) = .ok (.int i) :=
@@ -41,27 +37,18 @@ theorem attr_roundtrip_int (pr : Nat → Bool) (i : Int) : parseAttr (pyRepr pr 
 theorem attr_roundtrip_float (pr : Nat → Bool) (l : Str) (h : isFloatRepr l = true) :
     parseAttr (pyRepr pr (.float l)) = .ok (.float l) := AttrL.float_roundtrip l h
 
-/-- negation of the full statement, from concrete witnesses -/
-theorem attr_roundtrip_false : ¬ ∀ (pr : Nat → Bool) (v : AttrVal), parseAttr (pyRepr pr v) = .ok v :=
-  AttrL.attr_roundtrip_false
+/-- historical example about a constant text (not about the source): `np.float64(1.5)`, which the pinned tree
+wrote for the timestamp of a dataset read from HDF5, is not a readable attribute value -/
+theorem attr_npfloat_text_unreadable :
+    parseAttr [110, 112, 46, 102, 108, 111, 97, 116, 54, 52, 40, 49, 46, 53, 41] = .error .valueError :=
+  AttrL.npfloat_text_unreadable
 
-/-- `np.float64(1.5)` is not readable: ValueError -/
-theorem attr_npfloat_witness :
-    parseAttr (pyRepr (fun _ => true) (.npFloat [49, 46, 53])) = .error .valueError := AttrL.npfloat_not_roundtrip
-
-/-- `np.int64(5)` is not readable: ValueError -/
-theorem attr_npint_witness :
-    parseAttr (pyRepr (fun _ => true) (.npInt 5)) = .error .valueError := AttrL.npint_not_roundtrip
-
-/-- U+E0001 comes back as the ten characters `\U000e0001` -/
-theorem attr_astral_witness :
-    parseAttr (pyRepr (fun _ => false) (.str [917505])) = .ok (.str [92, 85, 48, 48, 48, 101, 48, 48, 48, 49]) :=
-  AttrL.astral_not_roundtrip
-
-example : AttrRoundTrips (fun _ => false) (.str [39, 34, 92, 10, 1, 127, 133, 65534]) := by
+example : AttrValid (.str [39, 34, 92, 10, 1, 127, 133, 65534, 917505, 1114111]) := by
   intro c hc; simp at hc; omega
-example : AttrRoundTrips (fun _ => true) (.float [49, 46, 53, 101, 45, 48, 55]) := by
+example : AttrValid (.float [49, 46, 53, 101, 45, 48, 55]) := by
   show isFloatRepr _ = true; decide
+/-- U+E0001 (non-printable, above U+FFFF) goes out as `\U000e0001` and comes back as itself -/
+example : parseAttr (pyRepr (fun _ => false) (.str [917505])) = .ok (.str [917505]) := by rfl
 
 /-! ## text matrix layout: reshape and special columns, all shapes with ≥ 2 axes -/
 
@@ -151,11 +138,11 @@ theorem find_latest_time_numeric (st : DStore) (label dd ff t : Str)
     (hc : IsCandidate st label dd ff' t') : parseNat t' ≤ parseNat t :=
   StoreL.find_latest_time_numeric st label dd ff t h ff' t' hc
 
-/-- … and none lies on a later date (8-character date codes; `$` also lets a 9-character name ending in a newline through) -/
+/-- … and none lies on a later date -/
 theorem find_latest_date_numeric (st : DStore) (label dd ff t : Str)
     (h : findLatest st label none = .ok (some (dd, ff, t))) (dd' ff' t' : Str)
-    (hc : IsCandidate st label dd' ff' t') (hl : dd.length = 8) (hl' : dd'.length = 8) :
-    parseNat dd' ≤ parseNat dd := StoreL.find_latest_date_numeric st label dd ff t h dd' ff' t' hc hl hl'
+    (hc : IsCandidate st label dd' ff' t') : parseNat dd' ≤ parseNat dd :=
+  StoreL.find_latest_date_numeric st label dd ff t h dd' ff' t' hc
 
 /-- `None` only when no folder carries the label -/
 theorem find_latest_none (st : DStore) (label : Str) (h : findLatest st label none = .ok none) :
